@@ -1,8 +1,8 @@
 package main
 
 import (
-	"errors"
 	"encoding/hex"
+	"errors"
 	"fmt"
 	"math"
 	"reflect"
@@ -17,31 +17,31 @@ import (
 // (DESIGN.md §3.2).  Wire() is what the model decodes; Go() is the real Go
 // value handed to pongo2.
 type VT struct {
-	K      string // nil bool int uint float str list arr smap imap struct ptr nilptr boxed stringer
-	B      bool
-	I      int64
-	U      uint64
-	F      float64
-	S      string
-	Elem   string // list/arr element typing on the Go side: "any" "int" "string" "float"
-	Items  []VT
-	Keys   []string // smap / struct field names
-	IKeys  []int64
-	Inner  *VT
-	Safe   bool
-	TName  string
+	K     string // nil bool int uint float str list arr smap imap struct ptr nilptr boxed stringer
+	B     bool
+	I     int64
+	U     uint64
+	F     float64
+	S     string
+	Elem  string // list/arr element typing on the Go side: "any" "int" "string" "float"
+	Items []VT
+	Keys  []string // smap / struct field names
+	IKeys []int64
+	Inner *VT
+	Safe  bool
+	TName string
 }
 
-func vNil() VT              { return VT{K: "nil"} }
-func vBool(b bool) VT       { return VT{K: "bool", B: b} }
-func vInt(i int64) VT       { return VT{K: "int", I: i} }
-func vUint(u uint64) VT     { return VT{K: "uint", U: u} }
-func vFloat(f float64) VT   { return VT{K: "float", F: f} }
-func vStr(s string) VT      { return VT{K: "str", S: s} }
-func vList(elem string, xs ...VT) VT { return VT{K: "list", Elem: elem, Items: xs} }
-func vArr(xs ...VT) VT      { return VT{K: "arr", Elem: "int", Items: xs} }
-func vPtr(v VT) VT          { return VT{K: "ptr", Inner: &v} }
-func vBoxed(v VT, safe bool) VT { return VT{K: "boxed", Inner: &v, Safe: safe} }
+func vNil() VT                          { return VT{K: "nil"} }
+func vBool(b bool) VT                   { return VT{K: "bool", B: b} }
+func vInt(i int64) VT                   { return VT{K: "int", I: i} }
+func vUint(u uint64) VT                 { return VT{K: "uint", U: u} }
+func vFloat(f float64) VT               { return VT{K: "float", F: f} }
+func vStr(s string) VT                  { return VT{K: "str", S: s} }
+func vList(elem string, xs ...VT) VT    { return VT{K: "list", Elem: elem, Items: xs} }
+func vArr(xs ...VT) VT                  { return VT{K: "arr", Elem: "int", Items: xs} }
+func vPtr(v VT) VT                      { return VT{K: "ptr", Inner: &v} }
+func vBoxed(v VT, safe bool) VT         { return VT{K: "boxed", Inner: &v, Safe: safe} }
 func vSMap(keys []string, vals []VT) VT { return VT{K: "smap", Keys: keys, Items: vals} }
 func vIMap(keys []int64, vals []VT) VT  { return VT{K: "imap", IKeys: keys, Items: vals} }
 
@@ -153,10 +153,10 @@ type SInt int
 func (s SInt) String() string { return "<" + strconv.Itoa(int(s)) + ">" }
 
 // methods of the harness struct (mirrored in the model: Exec.lean vs1Methods)
-func (v VS1) GetB() any                 { return v.B }
-func (v VS1) Echo(s string) string      { return s + "!" }
-func (v *VS1) PtrName() string          { return "ptr" }
-func (v VS1) Fail() (string, error)     { return "", errors.New("method failed") }
+func (v VS1) GetB() any             { return v.B }
+func (v VS1) Echo(s string) string  { return s + "!" }
+func (v *VS1) PtrName() string      { return "ptr" }
+func (v VS1) Fail() (string, error) { return "", errors.New("method failed") }
 func (v VS1) Sum(xs ...int) int {
 	t := 0
 	for _, x := range xs {
